@@ -56,7 +56,7 @@ Step == /\ Rec[l].ev = "Step"
            /\ kind' = r.kind /\ rat' = r.rat /\ pub' = r.pub /\ rgn' = r.rgn /\ agg' = r.agg
            /\ req' = r.req /\ acc' = r.acc /\ p' = r.p /\ mpo' = r.mpo /\ mdb' = r.mdb /\ den' = 1
            /\ ust' = r.ust
-           /\ Report(Names(<< <<"Sum", Sum'>>, <<"RangePos", RangePosS(IF r.exact THEN 0 ELSE 1)'>>, <<"RangeNeg", RangeNeg'>>,
+           /\ Report(Names(<< <<"Sum", Sum'>>, <<"RangePos", RangePosOf(r.acc, r.req, r.p, r.pub, 1, IF r.exact THEN 0 ELSE 1)>>, <<"RangeNeg", RangeNeg'>>,
                               <<"Zero", (r.sg = 0) => Zero'>>, <<"NoOpposite", NoOpposite'>>, <<"Regen", Regen'>>,
                               <<"BatteryFirst", BatteryFirst'>>,
                               <<"KindsAsBuilt", r.kind = [i \in 1..Len(units) |-> units[i].k]>>,
